@@ -29,10 +29,10 @@ type solverSpec struct {
 
 var solvers = []solverSpec{
 	{"z3-new", func(f string, ms int) []string { return []string{"z3-new", "-T:" + itoa(ms/1000+1), "-t:" + itoa(ms), f} }},
-	{"z3", func(f string, ms int) []string { return []string{"z3", "-T:" + itoa(ms/1000+1), "-t:" + itoa(ms), f} }},
 	{"z3-new-ematch", func(f string, ms int) []string {
 		return []string{"z3-new", "-T:" + itoa(ms/1000+1), "-t:" + itoa(ms), "smt.mbqi=false", "smt.auto_config=false", f}
 	}},
+	{"z3", func(f string, ms int) []string { return []string{"z3", "-T:" + itoa(ms/1000+1), "-t:" + itoa(ms), f} }},
 	{"cvc5", func(f string, ms int) []string {
 		return []string{"cvc5", "--produce-models", "--tlimit=" + itoa(ms), f}
 	}},
@@ -112,13 +112,13 @@ func Solve(script string, dir, name string, timeoutMs int, all bool) SolveResult
 		wg.Add(1)
 		go func(i int, sp solverSpec) {
 			defer wg.Done()
-			if !all && i > 0 {
-				// stagger: give z3-new a head start to save CPU
+			if !all && i > 1 {
+				// stagger: give the two z3-new configurations a head start to save CPU
 				select {
 				case <-ctx.Done():
 					ch <- r{sp.name, "cancelled", "", 0}
 					return
-				case <-time.After(time.Duration(250*i) * time.Millisecond):
+				case <-time.After(time.Duration(200*i) * time.Millisecond):
 				}
 			}
 			st, out, secs := runOne(ctx, sp, file, timeoutMs)
